@@ -58,6 +58,21 @@ CHECKS.update({
                 note="rustc's verdict on accepted expansions is established by the compiled corpora of the E2 checks for the types they contain, not for all accepted items."),
 })
 
+CHECKS.update({
+    "C01": dict(engine="E2 typegen-compile (main corpus)", category="exploration", design="§6 C01",
+                technique="exhaustive small-scope enumeration of type definitions x value products, compiled against the real derive + serde; membership of serde_json output in the swc-parsed type model",
+                text="Every type of the generated corpus (all shapes, representations and attribute combinations up to the stated interaction order) x every value of its tiny domains: the JSON serde produces inhabits the declared TypeScript type.",
+                note="Trusted: swc parser, tsmodel denotation (exact objects, merging intersections), serde_json. Small-scope: arity <=3, depth <=3, pairwise attribute interactions."),
+    "C02": dict(engine="E2 typegen-compile (main corpus)", category="exploration", design="§6 C02",
+                technique="type-directed exhaustive witness enumeration plus near-miss mutants of real samples, decided by the real serde Deserialize implementation of each generated type",
+                text="For every corpus type that round-trips through serde: every enumerated inhabitant of the declared TypeScript type (and every inhabiting one-step mutant of real samples) deserializes, and re-serializes into the type.",
+                note="Witness bounds as stated in the evidence; numbers {1,2}, strings {'',a} (one character for char)."),
+    "C04": dict(engine="E2 typegen-compile + E3 graph", category="exploration", design="§6 C04",
+                technique="exhaustive enumeration of exported files (main corpus outputs, string-content corpus, graph-corpus files) parsed with an independent TypeScript grammar (swc)",
+                text="Every exported text of the corpora parses as a module, starts with the notice, holds only `import type` then `export type`, declares exactly the exported types once, ends with a newline.",
+                note="Trusted: swc. Feature configurations: default and import-esm (format/no-serde-compat listed as limits until built)."),
+})
+
 NOT_YET = {
 }
 
